@@ -184,14 +184,40 @@ def fsmx_ref_in(w: str) -> bool:
     return acc(s)
 
 
+def _pre_aliases(cs, base: str) -> Set[str]:
+    """names that stand for `base` (a local name or `self.<attr>`) in the loop prologue: assigned to it or from it, also
+    position-wise through tuple assignments (`line, self.strings = text, strings`)"""
+    names = {base}
+    for _ in range(3):
+        for st in cs.pre:
+            for a in ast.walk(st):
+                if not isinstance(a, (ast.Assign, ast.AnnAssign)) or getattr(a, "value", None) is None:
+                    continue
+                tgts = a.targets if isinstance(a, ast.Assign) else [a.target]
+                for t in tgts:
+                    pairs = list(zip(t.elts, a.value.elts)) if isinstance(t, ast.Tuple) and isinstance(a.value, ast.Tuple) and \
+                        len(t.elts) == len(a.value.elts) else [(t, a.value)]
+                    for tt, vv in pairs:
+                        tn, vn = ast.unparse(tt), ast.unparse(vv)
+                        if isinstance(vv, (ast.Name, ast.Attribute)) and isinstance(tt, (ast.Name, ast.Attribute)):
+                            if tn in names:
+                                names.add(vn)
+                            if vn in names:
+                                names.add(tn)
+    return names
+
+
 def r4_masking(ctx, rep):
-    """Structure of the per-statement prologue of the dispatch loop, by role: the masking loop is the `while` that appends to
-    self.strings; the case-folded copy is the local assigned from <statement>.lower()."""
+    """Structure of the per-statement prologue of the dispatch loop on the canonical (helper-inlined) form, by role: the
+    literal table is self.strings or a local that is assigned to it; the masking loop is the `while` that appends to the table;
+    the case-folded copy is the local assigned from <statement>.lower()."""
     py, cs = ctx.py, ctx.cascade
     LV, LO = cs.line_var, cs.lower_var
+    TABLE = _pre_aliases(cs, "self.strings")
+    TEXT = _pre_aliases(cs, LV)
     def appends_strings(n):
         return isinstance(n, ast.Call) and isinstance(n.func, ast.Attribute) and n.func.attr == "append" and \
-            ast.unparse(n.func.value) == "self.strings"
+            ast.unparse(n.func.value) in TABLE
     mask_i = next((i for i, st in enumerate(cs.pre) if isinstance(st, ast.While) and any(appends_strings(n) for n in ast.walk(st))), None)
     low_i = next((i for i, st in enumerate(cs.pre) if isinstance(st, ast.Assign) and any(isinstance(t, ast.Name) and t.id == LO
                                                                                            for t in st.targets)), None)
@@ -210,34 +236,42 @@ def r4_masking(ctx, rep):
     w = cs.pre[mask_i]
     stores = [n for n in ast.walk(w) if appends_strings(n) and n.args and isinstance(n.args[0], ast.Call)
               and isinstance(n.args[0].func, ast.Attribute) and n.args[0].func.attr == "group"]
-    def is_placeholder_sub(n):
-        if not (isinstance(n, ast.Call) and isinstance(n.func, ast.Attribute) and n.func.attr == "sub" and n.args):
-            return False
-        once = any(k.arg == "count" and isinstance(k.value, ast.Constant) and k.value.value == 1 for k in n.keywords) or \
-            (len(n.args) >= 3 and isinstance(n.args[2], ast.Constant) and n.args[2].value == 1)
-        fs = n.args[0]
-        indexed = isinstance(fs, ast.JoinedStr) and any(isinstance(c, ast.Call) and call_name(c) == "len" and c.args
-                                                        and ast.unparse(c.args[0]) == "self.strings" for c in ast.walk(fs))
-        return once and indexed
-    subs = [st for st in ast.walk(w) if isinstance(st, ast.Assign) and any(isinstance(t, ast.Name) and t.id == LV for t in st.targets)
-            and any(is_placeholder_sub(n) for n in ast.walk(st.value))]
+    def indexed(e: ast.AST) -> bool:
+        """a quoted index into the table: an f-string / format that interpolates len(<table>)"""
+        for x in astq.expand_locals(e, cs.fn):
+            for c in ast.walk(x):
+                if isinstance(c, ast.Call) and call_name(c) == "len" and c.args and ast.unparse(c.args[0]) in TABLE:
+                    return True
+        return False
+    def replaces_one(a: ast.Assign) -> bool:
+        subs_ = [n for n in ast.walk(a.value) if isinstance(n, ast.Call) and isinstance(n.func, ast.Attribute) and n.func.attr == "sub"]
+        if subs_:
+            return all(any(k.arg == "count" and isinstance(k.value, ast.Constant) and k.value.value == 1 for k in n.keywords) or
+                       (len(n.args) >= 3 and isinstance(n.args[2], ast.Constant) and n.args[2].value == 1) for n in subs_)
+        # spliced in by position: text[:m.start()] + placeholder + text[m.end():]
+        return any(isinstance(n, ast.Call) and isinstance(n.func, ast.Attribute) and n.func.attr in ("start", "end", "span")
+                   for n in ast.walk(a.value))
+    subs = [st for st in ast.walk(w) if isinstance(st, ast.Assign) and any(ast.unparse(t) in TEXT for t in st.targets)
+            and indexed(st.value) and replaces_one(st)]
     ok = bool(stores) and bool(subs)
     rep.ob("masking replaces each literal by its index placeholder", ok,
-           'literal k is stored in self.strings[k] and one occurrence is replaced by "k"' if ok else
+           'literal k is stored in the table and one occurrence is replaced by "k"' if ok else
            "the masking loop does not store the matched literal and substitute exactly one occurrence by its index", py.nloc(w))
     # nothing between masking and the chain re-reads the unmasked text: the statement variables are only re-assigned
-    # from each other
+    # from each other (and from the table hand-over of an inlined helper)
     between = cs.pre[mask_i + 1:]
+    allowed = TEXT | TABLE | {LO, "self"}
     bad = [st for st in between for a in ast.walk(st) if isinstance(a, ast.Assign)
-           and any(isinstance(t, ast.Name) and t.id in (LV, LO) for t in a.targets)
-           and not {n.id for n in ast.walk(a.value) if isinstance(n, ast.Name)} <= {LV, LO, "self"}]
+           and any(isinstance(t, ast.Name) and t.id in (LV, LO) for tg in a.targets for t in ast.walk(tg))
+           and not {n.id for n in ast.walk(a.value) if isinstance(n, ast.Name)} <= {x.split(".")[0] for x in allowed}]
     rep.ob("nothing re-reads the unmasked text before dispatch", not bad,
            f"{len(between)} statements between masking and the chain; the statement is only re-assigned from itself" if not bad else
            f"`{ast.unparse(bad[0])[:70]}` rebuilds the statement from something else than its masked text", py.nloc(cs.loop))
-    rs = [i for i, st in enumerate(cs.pre) if isinstance(st, ast.Assign) and any(ast.unparse(t) == "self.strings" for t in st.targets)
+    rs = [i for i, st in enumerate(cs.pre) if isinstance(st, (ast.Assign, ast.AnnAssign)) and getattr(st, "value", None) is not None
+          and any(ast.unparse(t) in TABLE for t in (st.targets if isinstance(st, ast.Assign) else [st.target]))
           and isinstance(st.value, ast.List) and not st.value.elts]
     rep.ob("literal table reset per statement", len(rs) >= 1 and rs[0] < mask_i,
-           "self.strings is emptied at the top of each iteration", py.nloc(cs.loop))
+           "the table is emptied at the top of each iteration", py.nloc(cs.loop))
 
 
 def r5_continuation(ctx, rep):
@@ -271,25 +305,36 @@ def r5_continuation(ctx, rep):
         upper = None if v.slice.upper is None else ast.literal_eval(v.slice.upper) if isinstance(v.slice.upper, (ast.Constant, ast.UnaryOp)) else "?"
         return (lower or None) == (lo or None) and upper == hi and v.slice.step is None
 
-    # --- leading &
-    le = [e for e in ev if e.kind == "assign" and e.target == V and any(lead(t) for t in pos_tests(e)) and any(only(t, "continued") for t in pos_tests(e))]
-    le += [e for e in ev if e.kind == "assign" and e.target == V and any(lead(t.operand) for t in neg_tests(e) if isinstance(t, ast.UnaryOp) and isinstance(t.op, ast.Not))
-           and any(only(t, "continued") for t in pos_tests(e)) and e not in le]
+    # --- leading &.  Path conditions are evaluated propositionally (atoms: the line starts with &, the previous piece was
+    # continued, anything else is a free proposition), so nested ifs, inverted tests with early exits and hoisted flags are
+    # the same thing
+    def atom(t):
+        if isinstance(t, ast.Name) and t.id == "continued":
+            return ("continued", True)
+        if lead(t) and isinstance(t, (ast.Compare, ast.Call)):
+            return ("lead", True)
+        if isinstance(t, ast.Compare) and len(t.ops) == 1 and isinstance(t.ops[0], ast.NotEq):
+            eq = ast.Compare(left=t.left, ops=[ast.Eq()], comparators=t.comparators)
+            if lead(eq):
+                return ("lead", False)
+        return None
+    strips_lead = lambda v: is_slice(v, 1, None) or (isinstance(v, ast.Call) and call_name(v) == f"{V}.removeprefix"      # noqa: E731
+                                                     and [ast.unparse(a_) for a_ in v.args] == ["'&'"])
+    on_lead = [e for e in ev if e.kind == "assign" and e.target == V and e.value is not None
+               and astq.path_implies(e, atom, {"lead": True}) is True]
+    le = [e for e in on_lead if astq.path_implies(e, atom, {"lead": True, "continued": True}) is True]
     if not le:
         raise AnalysisError("reader: no assignment to the piece on the path 'starts with & and continued'")
-    for e in le[:1]:
-        ok = is_slice(e.value, 1, None) or (isinstance(e.value, ast.Call) and call_name(e.value) == f"{V}.removeprefix"
-                                            and [ast.unparse(a) for a in e.value.args] == ["'&'"])
-        rep.ob("leading & : exactly that one character is removed", ok,
-               "the continued text is appended verbatim after the leading &" if ok else
-               f"`line = {ast.unparse(e.value)}`: more than the leading & is removed, so a "
-               f"character literal continued as `'abc&` / `& def'` loses the blanks after the &", py.nloc(e.node))
-    def leads(e):
-        return any(lead(t) for t in pos_tests(e)) or any(isinstance(t, ast.UnaryOp) and isinstance(t.op, ast.Not) and lead(t.operand) for t in neg_tests(e))
+    ok = all(strips_lead(e.value) for e in le)
+    bad_e = next((e for e in le if not strips_lead(e.value)), le[0])
+    rep.ob("leading & : exactly that one character is removed", ok,
+           "the continued text is appended verbatim after the leading &" if ok else
+           f"`line = {ast.unparse(bad_e.value)}`: more than the leading & is removed, so a "
+           f"character literal continued as `'abc&` / `& def'` loses the blanks after the &", py.nloc(bad_e.node))
 
     def not_leads(e):
-        return any(lead(t) for t in neg_tests(e)) or any(isinstance(t, ast.UnaryOp) and isinstance(t.op, ast.Not) and lead(t.operand) for t in pos_tests(e))
-    err = [e for e in ev if e.kind == "raise" and leads(e) and any(only(t, "continued") for t in neg_tests(e))]
+        return astq.path_implies(e, atom, {"lead": False}) is True
+    err = [e for e in ev if e.kind == "raise" and astq.path_implies(e, atom, {"lead": True, "continued": False}) is True]
     rep.ob("a leading & without a continued line is an error", bool(err), "", py.nloc(err[0].node) if err else py.nloc(fn))
     nb = [e for e in ev if e.kind == "assign" and e.target == "linebuffer" and not_leads(e)]
     ok = bool(nb) and isinstance(nb[0].value, ast.BinOp) and isinstance(nb[0].value.op, ast.Add) and \
